@@ -128,4 +128,24 @@ def okPattern (p : Str) : Bool :=
 def wfTable (rs : List Route) : Bool :=
   rs.all (fun r => okPattern r.path) && uniqB (initial (rs.map mkEntry))
 
+/-- two registrations of one route: same method, same normalised pattern -/
+def sameKey (a b : Route) : Bool := a.method == b.method && (norm a.path).1 == (norm b.path).1
+
+/-- registering a route again replaces the earlier registration (`addMethod` overwrites the record of
+    that method at that node): the table that is *in force* keeps the last registration of each route -/
+def dedupLast : List Route → List Route
+  | [] => []
+  | r :: rs => if rs.any (sameKey r) then dedupLast rs else r :: dedupLast rs
+
+/-- every pattern is representable (re-registrations allowed) -/
+def okTable (rs : List Route) : Bool := rs.all (fun r => okPattern r.path)
+
+/-- the per-table facts with re-registrations taken into account: the tree satisfies the invariant and
+    represents exactly the table in force (`dedupLast`).  Equal to `tableInvariant` on tables without
+    re-registered routes. -/
+def tableInvariantD (rs : List Route) : Bool × Bool :=
+  let t := build rs
+  (tiNode (maxParam rs) [] t && decide (t.kind = .static),
+   (resid t).isPerm (initial ((dedupLast rs).map mkEntry)))
+
 end Router.Tree
